@@ -174,46 +174,145 @@ def correspondence(ctx):
         with G.TmpDir() as tmp:
             for n in range(ctx.n(400, 6000)):
                 states, ops = _gen_case(rnd)
-                _reset()
-                paths = ['%s/m%d_%d.json.bz2' % (tmp, n, i) for i in range(len(states))]
-                info = [_prepare(p, s) for p, s in zip(paths, states)]
-                handlers = [G.JsonCacheHandler(p) for p in paths]
                 case = {'states': states, 'ops': [list(o) for o in ops]}
-                for i, h in enumerate(handlers):
-                    if (h.get_fingerprint(), _content_id(h)) != info[i]:
-                        rep.disagree('mgr.initial-cache-state', info[i], (h.get_fingerprint(), _content_id(h)), case)
-                outs = C.run_driver('drv_cache', '\n'.join(_model_lines(info, ops)) + '\n')[1 + len(states):]
-                if len(outs) != len(ops):
-                    raise C.InfraError('driver returned %d lines for %d ops' % (len(outs), len(ops)))
-                for step, (op, out) in enumerate(zip(ops, outs)):
-                    res_i = _impl_op(op, handlers)
-                    world_i, persisted = _impl_world(handlers, paths)
-                    res_m, _, world_m = out.partition(' | ')
-                    where = dict(case, step=step)
-                    if res_i != res_m:
-                        rep.disagree('mgr.result of %s' % op[0], res_m, res_i, where)
-                    if world_i != world_m:
-                        rep.disagree('mgr.state after %s' % op[0], world_m, world_i, where)
-                    if persisted != world_m.rpartition(' | ')[2] and res_i.startswith('added'):
-                        # what a later process would load from the files = what the handlers hold
-                        rep.disagree('mgr.persisted after %s' % op[0], world_m.rpartition(' | ')[2], persisted, where)
-                    rep.dist['op:%s:%s' % (op[0], res_i.split(' ')[0])] += 1
-                    if op[0] == 'add':
-                        rep.dist['add:%s:version-%s:%s' % (states[op[3]], op[2], res_i)] += 1
+                try:
+                    _reset()
+                    paths = ['%s/m%d_%d.json.bz2' % (tmp, n, i) for i in range(len(states))]
+                    info = [_prepare(p, s) for p, s in zip(paths, states)]
+                    handlers = [G.JsonCacheHandler(p) for p in paths]
+                    for i, h in enumerate(handlers):
+                        if (h.get_fingerprint(), _content_id(h)) != info[i]:
+                            rep.disagree('mgr.initial-cache-state', info[i], (h.get_fingerprint(), _content_id(h)), case)
+                    outs = C.run_driver('drv_cache', '\n'.join(_model_lines(info, ops)) + '\n')[1 + len(states):]
+                    if len(outs) != len(ops):
+                        raise C.InfraError('driver returned %d lines for %d ops' % (len(outs), len(ops)))
+                    for step, (op, out) in enumerate(zip(ops, outs)):
+                        res_i = _impl_op(op, handlers)
+                        world_i, persisted = _impl_world(handlers, paths)
+                        res_m, _, world_m = out.partition(' | ')
+                        where = dict(case, step=step)
+                        if res_i != res_m:
+                            rep.disagree('mgr.result of %s' % op[0], res_m, res_i, where)
+                        if world_i != world_m:
+                            rep.disagree('mgr.state after %s' % op[0], world_m, world_i, where)
+                        if persisted != world_m.rpartition(' | ')[2] and res_i.startswith('added'):
+                            # what a later process would load from the files = what the handlers hold
+                            rep.disagree('mgr.persisted after %s' % op[0], world_m.rpartition(' | ')[2], persisted, where)
+                        rep.dist['op:%s:%s' % (op[0], res_i.split(' ')[0])] += 1
+                        if op[0] == 'add':
+                            rep.dist['add:%s:version-%s:%s' % (states[op[3]], op[2], res_i)] += 1
+                except C.InfraError:
+                    raise
+                except Exception as e:
+                    rep.disagree('mgr.impl raised unexpectedly', 'no exception', G.unexpected(e), case)
                 rep.case(sig=(tuple(states), json.dumps(case['ops'])) if any(o[0] == 'add' for o in ops) else None,
                          sample=case, kind='history')
     finally:
         _reset()
 
 
-def oracle(ctx):
-    """The clauses of the property, checked directly on the real code."""
+def _oracle_case(rep, rnd, tmp, n, state, version, rounds):
+    """One cell of version x cache state: every clause of the property on the real SourceManager."""
     from eos import SourceManager
     from eos.eve_obj_builder import EveObjBuilder
     from eos.source.exception import ExistingSourceError, UnknownSourceError
+    ev = _eos_version()
+    _reset()
+    path = '%s/o%d.json.bz2' % (tmp, n)
+    fp0, _ = _prepare(path, state)
+    h = G.JsonCacheHandler(path)
+    case = {'cache': state, 'version': version, 'round': rounds}
+    if h.get_fingerprint() != fp0:
+        rep.violate('cache prepared as %s reports fingerprint %r' % (state, h.get_fingerprint()), case)
+    before_default = SourceManager.default
+    mk = rnd.random() < 0.5
+    dh = G.DataHandler(version, _salt(version))
+    try:
+        SourceManager.add('one', dh, h, make_default=mk)
+    except Exception as e:
+        rep.violate('add raised %s' % type(e).__name__, case)
+        return
+    want_rebuild = version is None or fp0 != '%s_%s' % (version, ev)
+    if bool(dh.calls) != want_rebuild:
+        rep.violate('add %s although data version %r and cached fingerprint %r' % (
+            'rebuilt' if dh.calls else 'did not rebuild', version, fp0), case)
+    ref = G.JsonCacheHandler('%s/ref%d.json.bz2' % (tmp, n))
+    ref.update_cache(EveObjBuilder.run(G.DataHandler(version, _salt(version))), 'ref')
+    src = SourceManager.get('one')
+    if want_rebuild and G.served(src.cache_handler) != G.served(ref):
+        rep.violate('after a rebuild the source does not serve objects of the current data', case)
+    if not want_rebuild and G.served(src.cache_handler) != G.served(ref):
+        rep.violate('cache kept under a current fingerprint serves other data than a fresh build', case)
+    cur = '%s_%s' % (version, ev)
+    if h.get_fingerprint() != cur or G.JsonCacheHandler(path).get_fingerprint() != cur:
+        rep.violate('stored fingerprint %r / persisted %r is not the current %r' % (
+            h.get_fingerprint(), G.JsonCacheHandler(path).get_fingerprint(), cur), case)
+    if (SourceManager.default is src) != mk or (not mk and SourceManager.default is not before_default):
+        rep.violate('default source %s although make_default=%r' % (
+            'changed' if SourceManager.default is src else 'unchanged', mk), case)
+    # taken alias: error, nothing changes
+    dh2 = G.DataHandler('v2', 2)
+    snapshot = (list(SourceManager.list()), SourceManager.default, h.get_fingerprint())
+    try:
+        SourceManager.add('one', dh2, h, make_default=True)
+        rep.violate('second add under a taken alias did not raise', case)
+    except ExistingSourceError:
+        pass
+    except Exception as e:
+        rep.violate('second add under a taken alias raised %s' % type(e).__name__, case)
+    if dh2.calls or snapshot != (list(SourceManager.list()), SourceManager.default, h.get_fingerprint()):
+        rep.violate('rejected add changed the registry, the default or the cache', case)
+    # adding again with unchanged data: via another alias, or after remove
+    expected = {'one'}
+    if rnd.random() < 0.5:
+        SourceManager.remove('one')
+        expected.discard('one')
+        alias2 = rnd.choice(['one', 'two'])
+    else:
+        alias2 = 'two'
+    expected.add(alias2)
+    for other in ('get-x', 'list'):
+        if rnd.random() < 0.5:
+            try:
+                SourceManager.get('nobody') if other == 'get-x' else SourceManager.list()
+            except UnknownSourceError:
+                pass
+    dh3 = G.DataHandler(version, _salt(version))
+    same_or_fresh = h if rnd.random() < 0.5 else G.JsonCacheHandler(path)
+    default_before = SourceManager.default
+    SourceManager.add(alias2, dh3, same_or_fresh)
+    if version is not None and dh3.calls:
+        rep.violate('adding again with unchanged data (version %r) rebuilt the cache' % (version,), case)
+    if version is None and not dh3.calls:
+        rep.violate('unknown data version did not rebuild', case)
+    if SourceManager.default is not default_before:
+        rep.violate('default source changed without make_default', case)
+    # get / remove / list against a shadow dict
+    shadow = set(SourceManager.list())
+    if shadow != expected or len(SourceManager.list()) != len(shadow):
+        rep.violate('list() %r differs from the added sources %r' % (SourceManager.list(), sorted(expected)), case)
+    for a in ('one', 'two', 'three'):
+        try:
+            got = SourceManager.get(a).alias
+        except UnknownSourceError:
+            got = None
+        if (got == a) != (a in shadow):
+            rep.violate('get(%r) disagrees with list()' % a, case)
+    SourceManager.remove(alias2)
+    try:
+        SourceManager.remove(alias2)
+        rep.violate('removing a removed alias did not raise', case)
+    except UnknownSourceError:
+        pass
+    if alias2 in SourceManager.list():
+        rep.violate('removed alias still listed', case)
+    rep.case(sig=('oracle', state, str(version), rounds), kind='oracle:%s:%s' % (state, version))
+
+
+def oracle(ctx):
+    """The clauses of the property, checked directly on the real code."""
     rep = ctx.report
     rnd = ctx.sub_rnd('oracle')
-    ev = _eos_version()
     try:
         with G.TmpDir() as tmp:
             n = 0
@@ -221,96 +320,11 @@ def oracle(ctx):
                 for state in STATES:
                     for version in VERSIONS:
                         n += 1
-                        _reset()
-                        path = '%s/o%d.json.bz2' % (tmp, n)
-                        fp0, _ = _prepare(path, state)
-                        h = G.JsonCacheHandler(path)
-                        case = {'cache': state, 'version': version, 'round': rounds}
-                        if h.get_fingerprint() != fp0:
-                            rep.violate('cache prepared as %s reports fingerprint %r' % (state, h.get_fingerprint()), case)
-                        before_default = SourceManager.default
-                        mk = rnd.random() < 0.5
-                        dh = G.DataHandler(version, _salt(version))
                         try:
-                            SourceManager.add('one', dh, h, make_default=mk)
+                            _oracle_case(rep, rnd, tmp, n, state, version, rounds)
                         except Exception as e:
-                            rep.violate('add raised %s' % type(e).__name__, case)
-                            continue
-                        want_rebuild = version is None or fp0 != '%s_%s' % (version, ev)
-                        if bool(dh.calls) != want_rebuild:
-                            rep.violate('add %s although data version %r and cached fingerprint %r' % (
-                                'rebuilt' if dh.calls else 'did not rebuild', version, fp0), case)
-                        ref = G.JsonCacheHandler('%s/ref%d.json.bz2' % (tmp, n))
-                        ref.update_cache(EveObjBuilder.run(G.DataHandler(version, _salt(version))), 'ref')
-                        src = SourceManager.get('one')
-                        if want_rebuild and G.served(src.cache_handler) != G.served(ref):
-                            rep.violate('after a rebuild the source does not serve objects of the current data', case)
-                        if not want_rebuild and G.served(src.cache_handler) != G.served(ref):
-                            rep.violate('cache kept under a current fingerprint serves other data than a fresh build', case)
-                        cur = '%s_%s' % (version, ev)
-                        if h.get_fingerprint() != cur or G.JsonCacheHandler(path).get_fingerprint() != cur:
-                            rep.violate('stored fingerprint %r / persisted %r is not the current %r' % (
-                                h.get_fingerprint(), G.JsonCacheHandler(path).get_fingerprint(), cur), case)
-                        if (SourceManager.default is src) != mk or (not mk and SourceManager.default is not before_default):
-                            rep.violate('default source %s although make_default=%r' % (
-                                'changed' if SourceManager.default is src else 'unchanged', mk), case)
-                        # taken alias: error, nothing changes
-                        dh2 = G.DataHandler('v2', 2)
-                        snapshot = (list(SourceManager.list()), SourceManager.default, h.get_fingerprint())
-                        try:
-                            SourceManager.add('one', dh2, h, make_default=True)
-                            rep.violate('second add under a taken alias did not raise', case)
-                        except ExistingSourceError:
-                            pass
-                        except Exception as e:
-                            rep.violate('second add under a taken alias raised %s' % type(e).__name__, case)
-                        if dh2.calls or snapshot != (list(SourceManager.list()), SourceManager.default, h.get_fingerprint()):
-                            rep.violate('rejected add changed the registry, the default or the cache', case)
-                        # adding again with unchanged data: via another alias, or after remove
-                        expected = {'one'}
-                        if rnd.random() < 0.5:
-                            SourceManager.remove('one')
-                            expected.discard('one')
-                            alias2 = rnd.choice(['one', 'two'])
-                        else:
-                            alias2 = 'two'
-                        expected.add(alias2)
-                        for other in ('get-x', 'list'):
-                            if rnd.random() < 0.5:
-                                try:
-                                    SourceManager.get('nobody') if other == 'get-x' else SourceManager.list()
-                                except UnknownSourceError:
-                                    pass
-                        dh3 = G.DataHandler(version, _salt(version))
-                        same_or_fresh = h if rnd.random() < 0.5 else G.JsonCacheHandler(path)
-                        default_before = SourceManager.default
-                        SourceManager.add(alias2, dh3, same_or_fresh)
-                        if version is not None and dh3.calls:
-                            rep.violate('adding again with unchanged data (version %r) rebuilt the cache' % (version,), case)
-                        if version is None and not dh3.calls:
-                            rep.violate('unknown data version did not rebuild', case)
-                        if SourceManager.default is not default_before:
-                            rep.violate('default source changed without make_default', case)
-                        # get / remove / list against a shadow dict
-                        shadow = set(SourceManager.list())
-                        if shadow != expected or len(SourceManager.list()) != len(shadow):
-                            rep.violate('list() %r differs from the added sources %r' % (SourceManager.list(), sorted(expected)), case)
-                        for a in ('one', 'two', 'three'):
-                            try:
-                                got = SourceManager.get(a).alias
-                            except UnknownSourceError:
-                                got = None
-                            if (got == a) != (a in shadow):
-                                rep.violate('get(%r) disagrees with list()' % a, case)
-                        SourceManager.remove(alias2)
-                        try:
-                            SourceManager.remove(alias2)
-                            rep.violate('removing a removed alias did not raise', case)
-                        except UnknownSourceError:
-                            pass
-                        if alias2 in SourceManager.list():
-                            rep.violate('removed alias still listed', case)
-                        rep.case(sig=('oracle', state, str(version), rounds), kind='oracle:%s:%s' % (state, version))
+                            rep.violate('source manager / cache handler raised unexpectedly: %s' % G.unexpected(e),
+                                        {'cache': state, 'version': version, 'round': rounds})
     finally:
         _reset()
 
